@@ -1,7 +1,7 @@
 from props import sched_common
 
 THEOREMS = ["Dispenso.Sched." + t for t in ['C01_at_most_once', 'C01_dtor_end_empty', 'C01_quiescent_count', 'C01_pool_never_drops', 'C01_quiescent_all_ran', 'C01_exactly_once', 'C01_exactly_once_at_dtor', 'C01_count_at_dtor', 'C01_no_submission_after_dtor']]
-# (flavour, scenarios in the quick tier): 0 mixed, 1 without resize, 2 resize-heavy, 3 overloaded pool + chains, 4 workers parked between submissions
+# (flavour, scenarios in the quick tier): 0 mixed, 1 without resize, 2 resize-heavy (incl. resize(0) held in join while a ring-routed bulk arrives), 3 overloaded pool + chains, 4 workers parked between submissions, 5 exception-heavy
 FLAVOURS = [(0, 180), (1, 120), (3, 50), (4, 50)]
 
 
